@@ -70,6 +70,8 @@ def oracle(cfg, xs, shape=None, full_walk=False, stats=None):
   base = {"cls": cfg["cls"], "variant": variant(cfg)}
   if cfg["kw"].get("use_stochastic_rounding"):
     base["sr_infer"] = True     # stochastic-rounding flag set, inference phase
+  if cfg.get("from") is not None:
+    base["redeclared"] = True   # attributes re-assigned on a live object
 
   def one(i):
     return {"cfg": cfg, "xs": [float(xs[i])], "shape": [1]}
